@@ -43,6 +43,7 @@ Proof.
   - apply nh_all_posok, nh_norm. rewrite forallb_app, nh_cbs. exact Hok.
   - unfold posok. simpl. apply nh_tl. exact Hok.
   - destruct (dcb s d); reflexivity.
+  - destruct (dcb s d); reflexivity.
 Qed.
 
 Lemma POS_reach s : reachable_from step init s -> forall t, posok (thr s t) = true.
